@@ -124,7 +124,14 @@ func valueKind(v core.Value) string {
 		}
 		return "ll-" + v.Elems()[0].Kind()
 	}
-	return v.Kind()
+	k := v.Kind()
+	switch pl := v.Payload(); {
+	case k == "str" && pl == "", k == "bin" && pl == "", k == "dec" && pl == "0":
+		return k + ":zero"
+	case (k[0] == 'i' || k[0] == 'u') && pl == "0":
+		return k + ":zero"
+	}
+	return k
 }
 
 func shapeName(a *core.Atom) string {
